@@ -237,10 +237,26 @@ def gen_case(rng, max_ops, maxL):
             if i < n: meta[k][2] += 1
     return {'ops': ops}
 
+def gen_identity_case(rng):
+    """the way PRISM.cost uses it: an IdentityMatrixArray that is changed (in place or not) and then inverted"""
+    n = rng.choice([1, 2, 3, 4]); L = rng.choice([1, 2, 3, 5, 8])
+    sp = rng.choice(['R', 'F', 'N'])
+    ops = [{'op': 'new', 'L': L, 'n': n, 'sp': sp, 'identity': True},
+           {'op': 'new', 'L': L, 'n': n, 'sp': sp, 'data': [round(x * 0.2, 5) for x in rnd_matrix(rng, L, n)], 'zeros_then_fill': False}]
+    for _ in range(rng.randint(1, 3)):
+        k = rng.choice(['scale', 'sub', 'add', 'div'])
+        if k == 'scale': ops.append({'op': 'binop', 'f': 'mul', 'k': 0, 'rhs': ['scalar', rng.choice([4.0, 0.5, 2.5])], 'inplace': True})
+        elif k == 'div': ops.append({'op': 'binop', 'f': 'div', 'k': 0, 'rhs': ['scalar', rng.choice([4.0, 0.5, 2.5])], 'inplace': True})
+        elif k == 'sub': ops.append({'op': 'binop', 'f': 'sub', 'k': 0, 'rhs': ['obj', 1], 'inplace': rng.random() < 0.7})
+        else: ops.append({'op': 'binop', 'f': 'add', 'k': 0, 'rhs': ['pm', [round(rng.uniform(0.0, 0.1), 4) for _ in range(n * n)]], 'inplace': True})
+    live = 2 + sum(1 for o in ops[2:] if not o['inplace'])
+    ops.append({'op': 'invert', 'k': rng.choice([0, live - 1]), 'inplace': rng.random() < 0.5})
+    return {'ops': ops}
+
 def generate(ctx):
     max_ops = ctx.n(10, 30); maxL = ctx.n(16, 64)
-    for _ in range(ctx.n(250, 3000)):
-        c = gen_case(ctx.rng, max_ops, maxL)
+    for q in range(ctx.n(250, 3000)):
+        c = gen_identity_case(ctx.rng) if q % 6 == 5 else gen_case(ctx.rng, max_ops, maxL)
         kinds = [o['op'] for o in c['ops']]
         nontriv = len(c['ops']) >= 5 and any(o.get('inplace') for o in c['ops'])
         tags = ['rank=%d' % c['ops'][0]['n']]
